@@ -101,7 +101,10 @@ impl Prop for C16 {
                     // oversize messages returned as Ok are reported by C04 as well
                     r.fail(format!("C16:{}:invalid_accepted", kind), format!("{}: encoder returned Ok({})", why, n));
                 }
-                if bufa.iter().any(|b| *b != pa) {
+                // "leave the buffer untouched" is stated for the documented-invalid
+                // arguments; for a message that is merely too large only the refusal
+                // (C04) and the absence of a panic are demanded
+                if why != "message too large for the SMBus byte count" && bufa.iter().any(|b| *b != pa) {
                     let first = bufa.iter().position(|b| *b != pa).unwrap();
                     r.fail(format!("C16:{}:refused_but_wrote", kind), format!("{}: encoder returned {:?} but modified the buffer at offset {}", why, ea, first));
                 }
